@@ -158,9 +158,33 @@ class ShardStats:
         os.replace(tmp, path)
 
 
+class _CaseHang(BaseException):
+    pass
+
+
+def _on_case_alarm(*_):
+    raise _CaseHang()
+
+
+CASE_LIMIT_S = {'quick': 300, 'thorough': 1200}     # a case needs seconds; beyond this it is abandoned
+
+
 def _eval(mod, case, ctx, open_ids):
-    """ run prop; classify known findings not registered as violations """
-    out = mod.prop(case, ctx)
+    """ run prop; classify known findings not registered as violations. A case that does not
+    come back within CASE_LIMIT_S (the code under test runs in this process and may loop) is
+    abandoned and counted inconclusive: a time limit is never a violation """
+    import signal
+    prev = signal.signal(signal.SIGALRM, _on_case_alarm)
+    limit = getattr(mod, 'CASE_LIMIT', CASE_LIMIT_S)[getattr(ctx, 'tier', 'quick')]
+    signal.alarm(limit)
+    try:
+        out = mod.prop(case, ctx)
+    except _CaseHang:
+        out = Outcome()
+        out.inconclusive = 'case_abandoned_after_%ds' % limit
+    finally:
+        signal.alarm(0)
+        signal.signal(signal.SIGALRM, prev)
     if out.violation is None:
         unregistered = [k for k in out.known if k not in open_ids]
         if unregistered:
